@@ -31,7 +31,7 @@ Proof.
   revert Hhit HT. unfold execute.
   destruct (generate_hash_key f cc (w t) st) as [[st1 res] pp].
   destruct res as [|k]; cbn; [discriminate|].
-  destruct (cache_lookup f cc k st1) as [|so se outs|mt]; cbn; try discriminate.
+  destruct (cache_lookup f cc k st1) as [so se outs|mt|]; cbn; try discriminate.
   - intros _ HT. split; [reflexivity|]. unfold transparent in HT. cbn in HT. eauto.
   - unfold compile_and_store.
     destruct (negb (o_c_status (w t) =? 0)); cbn; [discriminate|].
